@@ -11,7 +11,8 @@
 (*   base     the version of the last listing (everything <= base is       *)
 (*            covered by that listing)                                      *)
 (* Faults: EOF / connection error / timeouts (resume from `since`), 410    *)
-(* (re-list), unknown ERROR (fatal), BOOKMARK (advances `since`).          *)
+(* (re-list), unknown ERROR (fatal), BOOKMARK (advances `since`), requests *)
+(* that give up after their retries (429: re-list; 5xx / 403: fatal).      *)
 (* RememberAfterYield = TRUE: the version is recorded only after the       *)
 (* consumer took the event (duplicates, no loss); EagerBookmark = TRUE: a   *)
 (* resume version ahead of what was streamed (the negative configuration:   *)
@@ -45,7 +46,13 @@ Compact == /\ compacted < srv /\ faults < MaxFaults /\ compacted' = srv /\ fault
            /\ UNCHANGED <<srv, phase, since, sent, got, base>>
 UnknownError == /\ phase = "watching" /\ faults < MaxFaults /\ faults' = faults + 1 /\ phase' = "dead"
                 /\ UNCHANGED <<srv, since, sent, got, base, compacted>>
-Next == Change \/ List \/ Stream \/ Ack \/ Bookmark \/ Disconnect \/ Compact \/ UnknownError
+\* a list or watch request that gives up after its retries: a 429 (and a transport error of the listing) is swallowed by
+\* infinite_watch - back off, then start over with a listing; a 5xx / 403 is not: the watcher dies of it (family F32)
+Escalated429 == /\ phase \in {"idle", "watching"} /\ faults < MaxFaults /\ faults' = faults + 1 /\ phase' = "idle"
+                /\ UNCHANGED <<srv, since, sent, got, base, compacted>>
+EscalatedOther == /\ phase \in {"idle", "watching"} /\ faults < MaxFaults /\ faults' = faults + 1 /\ phase' = "dead"
+                  /\ UNCHANGED <<srv, since, sent, got, base, compacted>>
+Next == Change \/ List \/ Stream \/ Ack \/ Bookmark \/ Disconnect \/ Compact \/ UnknownError \/ Escalated429 \/ EscalatedOther
 Spec == Init /\ [][Next]_vars
 
 \* every change up to `sent` has reached the consumer or is covered by a listing taken at or after it
